@@ -24,7 +24,9 @@ def gen_client(rng: random.Random, mode: str, n_ops: int, defs=None):
         if rng.random() < 0.6:
             sw[f] = True
     if mode == "C17":
-        g = gen.DefGen(rng, swarm=sw, max_fields=6, fixed_only=rng.random() < 0.7)
+        # plain_enums: the compiled reader mis-parses arrays of enums over 24/48/128-bit integers and flags with duplicate
+        # values cannot build pseudo-members (C03/C12 matters, outside this property)
+        g = gen.DefGen(rng, swarm=sw, max_fields=6, fixed_only=rng.random() < 0.7, plain_enums=True)
     else:
         g = gen.DefGen(rng, swarm=sw, max_fields=6)
     built = g.build(n_top=rng.randint(1, 3))
@@ -83,6 +85,8 @@ def gen_client(rng: random.Random, mode: str, n_ops: int, defs=None):
                 ops.append({"op": "reparse", "k": rng.randrange(n_parse)})
             elif r < 0.50:
                 ops.append(gen_mutation(rng, defs, paths, h))
+            elif r < 0.555:
+                ops.append({"op": "zero_vs_default", "t": t})
             elif r < 0.59:
                 ops.append({"op": "eq", "a": h, "b": rng.randrange(16)})
             elif r < 0.62:
@@ -127,6 +131,8 @@ def gen_mutation(rng, defs, paths, h, simple=False):
         inner = dict(p)
         inner["dims"] = []
         val = gen.gen_value(rng, defs, inner)
+        if val is not None and not p["ptr"] and len(p["dims"]) == 2 and all(isinstance(d, int) and d > 0 for d in p["dims"]):
+            return {"op": "arr_set", "h": h, "t": n, "path": p["path"], "idx": rng.randrange(p["dims"][0]), "idx2": rng.randrange(p["dims"][1]), "val": val}
         if val is not None and not p["ptr"] and len(p["dims"]) == 1 and rng.random() < 0.8:
             if rng.random() < 0.7:
                 return {"op": "arr_set", "h": h, "t": n, "path": p["path"], "idx": rng.randrange(0, 3), "val": val}
@@ -359,6 +365,9 @@ def exec_op(cl: Client, op, stats, mode, peers=None):
             parent = _navigate(hobj, op["path"][:-1])
             if k == "set":
                 setattr(parent, op["path"][-1], val)
+            elif k == "arr_set" and "idx2" in op:
+                getattr(parent, op["path"][-1])[op["idx"]][op["idx2"]] = val
+                stats.count("probe.two_dimensional_element_set")
             elif k == "arr_set":
                 getattr(parent, op["path"][-1])[op["idx"]] = val
             elif k == "arr_append":
@@ -445,6 +454,34 @@ def exec_op(cl: Client, op, stats, mode, peers=None):
             elif ha[0] != hb[0]:
                 raise Violation("c17_hash", "hashability_differs_between_equal_instances", f"{ha} {hb}")
         return got
+    if k == "zero_vs_default":
+        # "unspecified fields take the type's zero value": a default instance of a fixed-size structure and the parse of
+        # all-zero bytes are the same value - equal observations, ==, and equal hashes
+        from sim.observe import values_only
+
+        t = getattr(cs, op["t"])
+        if t.dynamic or t.size is None or _has_union(t):
+            return ["skip"]
+
+        def f():
+            a = t()
+            b = t(bytes(t.size))
+            cl.handles.append(a)
+            cl.handles.append(b)
+            oa, ob = values_only(observe(a, sizes=False)), values_only(observe(b, sizes=False))
+            stats.count("probe.zero_vs_default_compared")
+            if oa != ob:
+                raise Violation("c17_construct", "default_differs_from_zero_value", f"{op['t']}() observes {oa}, parsing {t.size} zero bytes observes {ob}")
+            if not (a == b) or (a != b):
+                raise Violation("c17_eq", "default_not_equal_to_zero_parse", f"{op['t']}() != {op['t']}(zero bytes): {oa}")
+            try:
+                ha, hb = hash(a), hash(b)
+            except TypeError:
+                return ["ok"]
+            if ha != hb:
+                raise Violation("c17_hash", "equal_instances_hash_differently", f"{op['t']}() and its zero-bytes parse are equal but hash differently: {oa}")
+            return ["ok"]
+        return _outcome(f)
     if k == "xeq":
         # equality across cstruct objects: instances of different structure types are never equal
         if peers is None or not cl.handles:
